@@ -10,7 +10,7 @@ HERE = os.path.dirname(os.path.abspath(__file__))
 VERIF = os.path.dirname(HERE)
 MODELRUN = os.path.join(VERIF, "extracted", "modelrun")
 
-TOL = 1e-9
+TOL = 1e-11
 
 
 class Nat(int):
